@@ -94,6 +94,26 @@ package schema
 //@ func ObjectSchema.ValidateCompatibility(o, typeOrData) -> err
 //@   names (err == nil) == compatOK(o, typeOrData)
 
+// object rules: a producer carrying an undeclared property, a property whose type is incompatible, lacking a property
+// the consumer requires (whether or not the consumer also declares a default for it), or - when both enforce it - a
+// different ID is rejected; everything else is accepted. The verdict is the same for every iteration order.
+//@ abstract pcompatOK(p *PropertySchema, d any) bool
+//@ func PropertySchema.ValidateCompatibility(p, typeOrData) -> err
+//@   names (err == nil) == pcompatOK(p, typeOrData)
+//@   assigns nothing
+//@ spec fieldsCompat(o *ObjectSchema, data map[string]any) bool = (forall k string :: k in data ==> k in o.PropertiesValue && pcompatOK(o.PropertiesValue[k], data[k])) && (forall k string :: k in o.PropertiesValue && o.PropertiesValue[k].RequiredValue ==> k in data && data[k] != nil)
+//@ func ObjectSchema.validateMapTypesCompatibility(o, data) -> err
+//@   ensures (err == nil) == fieldsCompat(o, data)
+//@   loop 1 invariant forall k string :: k in visited ==> k in o.PropertiesValue && pcompatOK(o.PropertiesValue[k], data[k])
+//@   loop 2 invariant (forall k string :: k in data ==> k in o.PropertiesValue && pcompatOK(o.PropertiesValue[k], data[k])) && (forall k string :: k in visited && o.PropertiesValue[k].RequiredValue ==> k in data && data[k] != nil)
+//@ func ObjectSchema.validateSchemaCompatibility(o, schemaType) -> err
+//@   requires schemaType != nil
+//@   ensures !objIDUnenforced(schemaType) && !o.IDUnenforcedValue && objID(schemaType) != o.IDValue ==> err != nil
+//@   ensures err == nil ==> (forall k string :: k in objProps(schemaType) ==> k in o.PropertiesValue && pcompatOK(o.PropertiesValue[k], any(objProps(schemaType)[k])))
+//@   ensures err == nil ==> (forall k string :: k in o.PropertiesValue && o.PropertiesValue[k].RequiredValue ==> k in objProps(schemaType))
+//@   ensures (objIDUnenforced(schemaType) || o.IDUnenforcedValue || objID(schemaType) == o.IDValue) && (forall k string :: k in objProps(schemaType) ==> k in o.PropertiesValue && pcompatOK(o.PropertiesValue[k], any(objProps(schemaType)[k]))) && (forall k string :: k in o.PropertiesValue && o.PropertiesValue[k].RequiredValue ==> k in objProps(schemaType)) ==> err == nil
+//@   loop 1 invariant fieldData != nil && (forall k string :: k in fieldData ==> k in objProps(schemaType) && fieldData[k] == any(objProps(schemaType)[k])) && (forall k string :: k in visited ==> k in fieldData)
+
 //@ func ScopeSchema.ValidateCompatibility(s, typeOrData) -> err
 //@   ensures typeOf(typeOrData) == type(*ScopeSchema) ==> ((err == nil) == compatOK(s.ObjectsValue[s.RootValue], any(typeOrData.(*ScopeSchema).ObjectsValue[typeOrData.(*ScopeSchema).RootValue])))
 //@   ensures typeOf(typeOrData) != type(*ScopeSchema) ==> ((err == nil) == compatOK(s.ObjectsValue[s.RootValue], typeOrData))
@@ -501,6 +521,15 @@ package schema
 //@   ensures err == nil ==> (exists m map[string]any :: (o.DiscriminatorInlined ? m == data : (m != data && (forall k string :: (k in m) == (k in data && k != o.DiscriminatorFieldNameValue)) && (forall k string :: k in m ==> m[k] == data[k]))) && compatOK(obj, any(m)))
 //@   ensures data[o.DiscriminatorFieldNameValue] == nil || typeOf(data[o.DiscriminatorFieldNameValue]) != type(KeyType) ==> err != nil
 
+// dispatch of a native (struct-mapped) value by its reflected type: a member whose reflected type is the type of the
+// value is found under whatever key it is declared (the zero key included), and nothing else is
+//@ func OneOfSchema.findUnderlyingType(o, data) -> key, obj, err
+//@   scope data != nil && kindOf(data) != KindMap
+//@   ensures err == nil ==> key in o.TypesValue && obj == o.TypesValue[key] && reflT(o.TypesValue[key]) == typeOf(data)
+//@   ensures structOrPtrToStruct(typeOf(data)) && (exists k KeyType :: k in o.TypesValue && reflT(o.TypesValue[k]) == typeOf(data)) ==> err == nil
+//@   ensures !structOrPtrToStruct(typeOf(data)) ==> err != nil
+//@   loop 1 invariant (foundKey != nil ==> *foundKey in o.TypesValue && reflT(o.TypesValue[*foundKey]) == typeOf(data)) && (forall k KeyType :: k in visited && reflT(o.TypesValue[k]) == typeOf(data) ==> foundKey != nil)
+
 //@ func OneOfSchema.UnserializeType(o, data) -> result, err
 //@   checks err == nil && typeOf(unserializedData) == type(map[string]any) ==> typeOf(result) == type(map[string]any) && result.(map[string]any) == unserializedData.(map[string]any) && o.DiscriminatorFieldNameValue in result.(map[string]any) && result.(map[string]any)[o.DiscriminatorFieldNameValue] == any(typedDiscriminator) && typedDiscriminator in o.TypesValue
 //@   checks err == nil ==> unserOK(o.TypesValue[typedDiscriminator], any(cloneData)) && unserializedData == unserV(o.TypesValue[typedDiscriminator], any(cloneData))
@@ -707,10 +736,12 @@ package schema
 //@ interface Scope.ApplySelf(this)
 //@   names selfApplied(this)
 
+// (a reference that cannot be resolved panics by design - the callers recover it - and must leave the reference as it
+// was: neither linked to nothing nor unlinked from what it was linked to)
 //@ func RefSchema.ApplyNamespace(r, objects, namespace)
-//@   scope namespace == r.ObjectNamespace ==> r.IDValue in objects
 //@   ensures namespace != r.ObjectNamespace ==> r.referencedObjectCache == old(r.referencedObjectCache)
-//@   ensures namespace == r.ObjectNamespace ==> r.referencedObjectCache == any(objects[r.IDValue])
+//@   ensures namespace == r.ObjectNamespace ==> r.IDValue in objects && r.referencedObjectCache == any(objects[r.IDValue])
+//@   onpanic r.referencedObjectCache == old(r.referencedObjectCache) && namespace == r.ObjectNamespace && !(r.IDValue in objects)
 //@   assigns r.referencedObjectCache
 
 //@ func RefSchema.ValidateReferences(r) -> err
@@ -1037,6 +1068,9 @@ package schema
 //@   scope rawData != nil && !(propertyID in rawData)
 //@   ensures propertyID in rawData ==> typeOf(rawData[propertyID]) == type(map[string]any) && len(rawData[propertyID].(map[string]any)) > 0
 //@   ensures forall k string :: k != propertyID ==> (k in rawData) == old(k in rawData)
+// a property whose own reflected type is a pointer (an optional member, possibly a self-reference) is left unset -
+// at every nesting level, whichever object the recursion started from
+//@   ensures kind(reflT(property.TypeValue)) == KindPointer ==> !(propertyID in rawData)
 //@   loop 1 invariant data != rawData && (forall k string :: (k in rawData) == old(k in rawData))
 //@   loop 2 invariant data != rawData && (forall k string :: (k in rawData) == old(k in rawData))
 
